@@ -474,7 +474,8 @@ func (dsc *dataStoreCommand) addInt(keyName string, delta int64) (value int64, e
 
 		var err error
 		value, err = strconv.ParseInt(string(strBytes), 10, 64)
-		if err != nil {
+		if err != nil || strconv.FormatInt(value, 10) != string(strBytes) {
+			// only the canonical decimal form counts as an integer ("007" and "+7" do not)
 			exists = VALUE_WRONG_FORMAT
 			return
 		}
@@ -2085,7 +2086,8 @@ func (dsc *dataStoreCommand) fieldAddInt(keyName, fieldName string, delta int64)
 	if exists {
 		var err error
 		oldInt, err := strconv.ParseInt(oldVal.(string), 10, 64)
-		if err != nil {
+		if err != nil || strconv.FormatInt(oldInt, 10) != oldVal.(string) {
+			// only the canonical decimal form counts as an integer
 			ve = VALUE_WRONG_FORMAT
 			return
 		}
